@@ -13,7 +13,8 @@ correspondence harness on every event):
 * `DocsMatchingTerms(idTerms)` = the positions whose document id is one of the ids (`docsMatching`), and never fails;
 * `Merge(segments, drops)` writes the live documents of its inputs, in input order, and returns the
   old→new document-number table (`mergeSpec`); a segment loaded back from the directory has the documents that were written;
-* a roaring bitmap is a duplicate-free list of naturals (`Bitmap`), `Or`/`AndNot`/`Add`/`GetCardinality` are the set operations.
+* a roaring bitmap is a duplicate-free list of naturals (`Bitmap`), `Or`/`AndNot`/`Add`/`GetCardinality` are the set operations;
+  doc numbers are `< 2^32` (so the `uint32` conversions in `introduceMerge` are the identity).
 -/
 namespace Bluge.Index
 
@@ -232,9 +233,11 @@ structure MergeTask where
   new : Option (List Doc)
 deriving DecidableEq, Repr
 
-/-- `s.oldNewDocNums[segmentID][oldDocNum]`, then `uint32(·)`; out-of-range (a Go panic) is reported by `mergeFaults` -/
+/-- `s.oldNewDocNums[segmentID][oldDocNum]`; the following `uint32(·)` is the identity on doc numbers `< 2^32`
+(roaring's domain — part of the bitmap assumption). An index out of range (a Go panic) yields `docDropped` here;
+it does not happen for tasks built by `MergeTask.plan` (the table of a merged segment has one entry per document). -/
 def newDocNum (oldNew : List (Nat × List Nat)) (sid o : Nat) : Nat :=
-  (((oldNew.lookup sid).getD [])[o]?.getD docDropped) % 2 ^ 32
+  ((oldNew.lookup sid).getD [])[o]?.getD docDropped
 
 /-- `segmentMerge.ProcessSegmentNow(segmentID, segSnapNow, newSegmentDeleted)`:
 returns (segment is going away, `s.old` after the `delete`, `newSegmentDeleted`) -/
@@ -321,66 +324,71 @@ def MergeWF (r0 : Root) (picked : List SegSnap) (fileMerge : Bool) (m : MergeTas
 instance (r0 : Root) (picked : List SegSnap) (f : Bool) (m : MergeTask) : Decidable (MergeWF r0 picked f m) := by
   unfold MergeWF; exact inferInstance
 
-/-! ## Histories: the writer as a state machine -/
+/-! ## Histories: the writer as a state machine
+
+Segment ids are handed out by `atomic.AddUint64(&s.nextSegmentID, 1)` when a batch is prepared / a merge is executed,
+i.e. *before* and not necessarily in the order of the introductions. An event therefore carries the id it was
+given, and the only thing the model asks of it (`EventWF`) is what the counter guarantees: it is not the id of any
+segment that ever stood in a root. -/
 
 structure State where
   root : Root
   /-- every root installed earlier, most recent first -/
   past : List Root
-  /-- `Writer.nextSegmentID` -/
-  nextSid : Nat
   /-- `nextSnapshotEpoch` of the introducer loop -/
   nextEpoch : Nat
   /-- ghost: the batches in introduction order -/
   applied : List Batch
 deriving Repr
 
-def State.init : State := ⟨Root.empty, [], 0, 1, []⟩
+def State.init : State := ⟨Root.empty, [], 1, []⟩
 
 /-- every root a concurrent observer may have seen, most recent first -/
 def State.history (s : State) : List Root := s.root :: s.past
 
+/-- ids of all segments that ever stood in a root -/
+def State.usedSids (s : State) : List Nat := s.history.flatMap Root.sids
+
 inductive Event where
-  /-- `Writer.Batch(b)`: `prepareSegment` looked at `history[seen]` (a stale root when `seen > 0`),
-  then the introducer ran `introduceSegment` -/
-  | batch (b : Batch) (seen : Nat)
+  /-- `Writer.Batch(b)`: `prepareSegment` took segment id `sid`, looked at `history[seen]` (a stale root when
+  `seen > 0`), then the introducer ran `introduceSegment` -/
+  | batch (b : Batch) (seen : Nat) (sid : Nat)
   /-- the persister wrote the segments `p` and the introducer ran `introducePersist` -/
   | persist (p : Persisted)
-  /-- a merge planned against `history[seen]` over the segments with ids `pick` was written and introduced -/
-  | merge (seen : Nat) (pick : List Nat) (fileMerge : Bool)
+  /-- a merge planned against `history[seen]` over the segments with ids `pick` (in-memory merge of the persister
+  or file merge of the merger) was written as segment `id` and introduced -/
+  | merge (seen : Nat) (pick : List Nat) (fileMerge : Bool) (id : Nat)
 deriving Repr
 
 /-- the root an event looked at -/
 def State.seen (s : State) (k : Nat) : Root := s.history[k]?.getD s.root
 
 def step (s : State) : Event → State
-  | .batch b k =>
-    let sid := s.nextSid + 1        -- atomic.AddUint64(&s.nextSegmentID, 1)
+  | .batch b k sid =>
     let obs := prepareObs (s.seen k) b.ids
     { root := introduceSegment s.root s.nextEpoch b sid obs, past := s.history,
-      nextSid := sid, nextEpoch := s.nextEpoch + 1, applied := s.applied ++ [b] }
+      nextEpoch := s.nextEpoch + 1, applied := s.applied ++ [b] }
   | .persist p =>
     { s with root := introducePersist s.root s.nextEpoch p, past := s.history, nextEpoch := s.nextEpoch + 1 }
-  | .merge k pick fileMerge =>
-    let id := s.nextSid + 1
+  | .merge k pick fileMerge id =>
     let r0 := s.seen k
     let picked := r0.segs.filter (fun ss => pick.contains ss.sid)
     { s with root := introduceMerge s.root s.nextEpoch (MergeTask.plan picked id fileMerge), past := s.history,
-             nextSid := id, nextEpoch := s.nextEpoch + 1 }
+             nextEpoch := s.nextEpoch + 1 }
 
 def run (evs : List Event) : State := evs.foldl step State.init
 
 /-- the batches of a history, in introduction order -/
 def batchesOf : List Event → List Batch
   | [] => []
-  | .batch b _ :: evs => b :: batchesOf evs
+  | .batch b _ _ :: evs => b :: batchesOf evs
   | _ :: evs => batchesOf evs
 
-/-- event well-formedness in a state (decidable): persists re-load what was written -/
+/-- event well-formedness in a state (decidable): segment ids are fresh, persists re-load what was written -/
 def EventWF (s : State) : Event → Prop
-  | .batch _ _ => True
+  | .batch _ _ sid => sid ∉ s.usedSids
   | .persist p => PersistWF s.root p
-  | .merge _ _ _ => True
+  | .merge _ _ _ id => id ∉ s.usedSids
 instance (s : State) (e : Event) : Decidable (EventWF s e) := by
   cases e <;> unfold EventWF <;> exact inferInstance
 
@@ -394,10 +402,5 @@ instance : (s : State) → (evs : List Event) → Decidable (HistoryWF s evs)
     unfold HistoryWF
     have := instDecidableHistoryWF (step s e) evs
     exact inferInstance
-
-/-- only batches and persists -/
-def Event.isMerge : Event → Bool
-  | .merge _ _ _ => true
-  | _ => false
 
 end Bluge.Index
